@@ -226,6 +226,31 @@ def _k_dur_float_factory(c) -> CaseInfo:
     return CaseInfo(exact.denominator != 1 or m < 0, "dur_float_factory")
 
 
+def _k_dur_float_edge(c) -> CaseInfo:
+    """Integer-valued float arguments at the ends of a factory's range: a value whose exact product with the unit lies
+    in the documented Duration range is accepted (result within a few ulps of the exact product - float inputs are
+    approximations), one unit or more outside is rejected."""
+    from pyoda_time import Duration
+
+    unit = UNITS[c["unit"]]
+    v = c["v"]
+    if not isinstance(v, int) or abs(v) > 2**80:
+        raise InvalidCase
+    x = float(v)
+    if int(x) != v:
+        raise InvalidCase
+    exact = v * unit
+    r = call(getattr(Duration, "from_" + c["unit"]), x)
+    what = f"from_{c['unit']}(float-edge)"
+    if in_dur(exact):
+        need(r is not RAISED, f"{what}/raised-in-range", f"{x!r} {c['unit']}")
+        got = _safe_ns(r)
+        need(isinstance(got, int) and abs(got - exact) * 2**50 <= max(abs(exact), 1), f"{what}/value", f"{x!r} -> {got} vs {exact}")
+    else:
+        need(r is RAISED, f"{what}/out-of-range-not-raised", f"{x!r} {c['unit']} got {_safe_ns(r)}")
+    return CaseInfo(True, "dur_float_edge:" + ("in" if in_dur(exact) else "out"))
+
+
 def _k_dur_binop(c) -> CaseInfo:
     from pyoda_time import Duration
 
@@ -707,6 +732,12 @@ def task_dur_edges(ctx: Ctx) -> None:
                     ctx.case("dur_factory", {"unit": uname, "n": n})
                     if in_dur(n * unit):
                         ctx.case("dur_unary", {"a": n * unit})
+        # float arguments at both ends of the unit's range (only the integer-valued floats that are exact)
+        hi, lo = (DUR_MAX + 1) // unit, DUR_MIN // unit
+        sp = max(1, int(math.ulp(float(hi))))
+        for v in sorted({hi - d for d in (1, 2, 3, sp, 2 * sp, 3 * sp)} | {hi + d for d in (0, 1, 2, sp, 2 * sp)} | {lo + d for d in (0, 1, 2, sp, 2 * sp)} | {lo - d for d in (1, 2, sp, 2 * sp)}):
+            if int(float(v)) == v:
+                ctx.case("dur_float_edge", {"unit": uname, "v": v})
 
 
 def task_constants(ctx: Ctx) -> None:
